@@ -203,6 +203,64 @@ def system_hostkey(fn):
     return kind, off, on
 
 
+def object_state(cls):
+    """sorted names of the attributes the class stores on `self` anywhere in its body (assignment,
+    annotated / augmented assignment, tuple targets, setattr(self, "<literal>", ...), walrus is not
+    an attribute store).  This is the state a transport object can carry from one open() to the
+    next.  Fail-closed on stores that cannot be named: setattr with a computed name, writes through
+    self.__dict__ / vars(self), `global` / `nonlocal`, and class-level mutable containers."""
+    names = set()
+
+    def targets(t):
+        if isinstance(t, (ast.Tuple, ast.List)):
+            for e in t.elts:
+                targets(e)
+        elif isinstance(t, ast.Starred):
+            targets(t.value)
+        elif isinstance(t, ast.Attribute) and isinstance(t.value, ast.Name) and t.value.id == "self":
+            names.add(t.attr)
+        elif isinstance(t, (ast.Attribute, ast.Subscript)):
+            base = t
+            while isinstance(base, (ast.Attribute, ast.Subscript)):
+                base = base.value
+            src = ast.unparse(t)
+            if "__dict__" in src or "vars(" in src:
+                raise ValueError("store through the instance dict: %s" % src)
+            if isinstance(base, ast.Name) and base.id == "self":
+                # self.x.y = ... / self.x[k] = ... : mutates an object reachable from self.x
+                first = t
+                while not (isinstance(first, ast.Attribute) and isinstance(first.value, ast.Name) and first.value.id == "self"):
+                    first = first.value
+                names.add(first.attr + ".*")
+
+    for n in ast.walk(cls):
+        if isinstance(n, ast.Assign):
+            for t in n.targets:
+                targets(t)
+        elif isinstance(n, (ast.AnnAssign, ast.AugAssign)):
+            targets(n.target)
+        elif isinstance(n, (ast.For, ast.AsyncFor)):
+            targets(n.target)
+        elif isinstance(n, (ast.With, ast.AsyncWith)):
+            for it in n.items:
+                if it.optional_vars is not None:
+                    targets(it.optional_vars)
+        elif isinstance(n, (ast.Global, ast.Nonlocal)):
+            raise ValueError("global / nonlocal in a transport class")
+        elif isinstance(n, ast.Call) and call_name(n) in ("setattr", "__setattr__"):
+            a = n.args
+            if call_name(n) == "setattr" and len(a) == 3 and isinstance(a[1], ast.Constant) and isinstance(a[1].value, str):
+                if ast.unparse(a[0]) == "self":
+                    names.add(a[1].value)
+            else:
+                raise ValueError("setattr with a computed name: %s" % ast.unparse(n))
+    for n in cls.body:     # class-level state shared by (and surviving) every object
+        if isinstance(n, (ast.Assign, ast.AnnAssign)) and n.value is not None \
+                and isinstance(n.value, (ast.Dict, ast.List, ast.Set, ast.Call, ast.ListComp, ast.DictComp, ast.SetComp)):
+            raise ValueError("class-level mutable attribute: %s" % ast.unparse(n))
+    return sorted(names)
+
+
 def generate(outdir):
     from scrapli.driver import AsyncGenericDriver, AsyncNetworkDriver, GenericDriver, NetworkDriver
     from scrapli.driver import core
@@ -252,6 +310,11 @@ def generate(outdir):
         order = open_order(fn)
         lines.append("Definition gen_open_%s : list (N * bool) := [%s]." % (k, "; ".join("(%d, %s)" % (c, "true" if g else "false") for c, g in order)))
         info["open_" + k] = order
+    # 4b. what a transport object stores on itself (carried from one open() to the next)
+    for k, cname in (("paramiko", "ParamikoTransport"), ("ssh2", "Ssh2Transport"), ("asyncssh", "AsyncsshTransport")):
+        st = object_state(find_class(trees[k], cname))
+        lines.append("Definition gen_state_%s : list (list N) := [%s]." % (k, "; ".join(cb(x) for x in st)))
+        info["state_" + k] = st
     afn = find_func(find_class(trees["asyncssh"], "AsyncsshTransport"), "open")
     kh = asyncssh_known_hosts(afn)
     lines.append("Definition gen_asyncssh_known_hosts : N := %d." % kh)
